@@ -94,6 +94,6 @@ static void Handle(const json& c, vh::Report& r) {
 
 int main(int argc, char** argv) {
   C();
-  vh::IsoOptions iso; iso.faultProperty = "C18"; iso.batch = 300; iso.watchdogSeconds = 20;
+  vh::IsoOptions iso; iso.faultProperty = "C18"; iso.batch = 300; iso.watchdogSeconds = 90;
   return vh::Main(argc, argv, Handle, true, iso);
 }
